@@ -1,0 +1,13 @@
+//go:build verif
+// +build verif
+
+package onchain
+
+import "time"
+
+// VerifSetFirstEventWindow replaces the time firstEvent remembers a delivered log (package
+// variable firstEventWindow) and returns the previous value. Verification hook, no logic.
+func VerifSetFirstEventWindow(d time.Duration) (old time.Duration) {
+	old, firstEventWindow = firstEventWindow, d
+	return
+}
